@@ -411,7 +411,33 @@ def stream_xcost(rng, n):
     return ops
 
 
+def gen_poisson(rng, big=False):
+    rd = rng.choice([1, 2, 3, 7, 10, 100, 1000])
+    rn = rng.randint(1, 5 * rd if not big else 40 * rd)
+    ed = rng.choice([10, 100, 1000, 10 ** 6, 10 ** 9])
+    en = rng.randint(1, max(1, ed // 10))
+    delta = rng.randint(0, 30 if not big else 400)
+    return rn, rd, en, ed, delta
+
+
+def stream_poisson(rng, n):
+    ops = []
+    for _ in range(n):
+        rn, rd, en, ed, delta = gen_poisson(rng, big=(rng.random() < 0.15))
+        # the real loop never terminates once exp(-mean) underflows (mean >~ 745): keep such
+        # cases rare, each costs one watchdog period
+        if rn * delta > 700 * rd and rng.random() < 0.97:
+            delta = max(1, (600 * rd) // rn)
+        # keep the mean moderate for most cases (the loop is O(mean) iterations of O(n) work)
+        if rng.random() < 0.6:
+            ops.append(f"pois_na {rn} {rd} {en} {ed} {delta}")
+        else:
+            ops.append(f"pois_p {rn} {rd} {delta} {rng.randint(0, 60)}")
+    return ops
+
+
 STREAMS = {
+    "poisson": (stream_poisson, None),
     "xcurve": (stream_xcurve, None),
     "xcost": (stream_xcost, None),
     "fp": (stream_fp, analysis_phase2),
